@@ -101,6 +101,14 @@ def cases(rnd, quick):
                 h['script'][place] = h['script'][place] + [[exc]]
         yield prog, [['run', 1, 4]]
         yield prog, [['run', 1, 4], ['run', 1, 4]]
+    # a cycle that ends with an exit code, then - the stopping handler removed - a cycle that ends without one
+    # (stopped from a second thread when idle): the code of the earlier cycle must not come back
+    for kind, code, place in itertools.product(['stopmgr', 'exit', 'stop2'], [3, 0, 's'], ['x0', 'x2']):
+        prog = make_program(place, kind, code, 'after', False, True)
+        hid = [int(h) for h, hd in prog['handlers'].items() if hd['names'] == [place] and hd['prio'] == 0][0]
+        prog['dyn'] = [hid]
+        yield prog, [['run', 1, 4], ['rmh', hid], ['run', 1, 3]]
+        yield prog, [['run', 1, 4], ['rmh', hid], ['run', 1, 3], ['addh', hid], ['run', 1, 4], ['rmh', hid], ['run', 1, 3]]
     # stop() called on a child component while the root runs: a manager that is not running -> no effect
     for code in (None, 3):
         prog = make_program('none', 'stopmgr', None, 'before', False, True)
